@@ -71,6 +71,7 @@ type clientState struct {
 
 // Run executes one Case.
 type Run struct {
+	pendingMts map[uint64]int // managed mode: commit timestamps chosen but not yet through the oracle
 	compactGone map[string]map[uint64]bool // versions some compaction dropped
 	compactKey  map[int64]*compactKeyState // per sub-compaction goroutine: the key being iterated
 	subcompactD map[int64]uint64           // per sub-compaction goroutine: its discard timestamp
@@ -1158,7 +1159,10 @@ func (r *Run) opCommit(cl *clientState, idx int, op *Op) {
 			r.mu.Unlock()
 		}
 		if r.c.Cfg.Managed {
-			if err := ts.txn.CommitAt(r.managedCommitTs(op.Ts), cb); err != nil {
+			cts := r.managedCommitTs(op.Ts)
+			err := ts.txn.CommitAt(cts, cb)
+			r.managedCommitDone(cts)
+			if err != nil {
 				cb(err)
 			}
 		} else {
@@ -1171,6 +1175,7 @@ func (r *Run) opCommit(cl *clientState, idx int, op *Op) {
 	if r.c.Cfg.Managed {
 		cts := r.managedCommitTs(op.Ts)
 		err = ts.txn.CommitAt(cts, nil)
+		r.managedCommitDone(cts)
 	} else {
 		err = ts.txn.Commit()
 	}
@@ -1191,7 +1196,22 @@ func (r *Run) managedCommitTs(want uint64) uint64 {
 		want++
 	}
 	r.usedTs[want] = true
+	// until the commit has passed the oracle, SetDiscardTs calls of other clients stay
+	// below this timestamp (a commit at or below the discard timestamp is caller misuse
+	// that the oracle answers with an assertion, i.e. a process abort)
+	if r.pendingMts == nil {
+		r.pendingMts = map[uint64]int{}
+	}
+	r.pendingMts[want]++
 	return want
+}
+
+func (r *Run) managedCommitDone(ts uint64) {
+	r.mu.Lock()
+	if r.pendingMts[ts]--; r.pendingMts[ts] <= 0 {
+		delete(r.pendingMts, ts)
+	}
+	r.mu.Unlock()
 }
 
 func diffWrites(want, got []WriteRec) string {
